@@ -506,9 +506,12 @@ pub fn run_c14(scn: &C14Scn, st: &mut Stats) -> RunResult {
         if v.len() >= 3 {
             break;
         }
-        let kind = FAULT_KINDS[(k + scn.salt) % FAULT_KINDS.len()];
+        let fault = Fault { call: k, kind: FAULT_KINDS[(k + scn.salt) % FAULT_KINDS.len()].to_string(), payload: ["", "", "msg", "nested:Interrupted", "nested:BrokenPipe", "seqio", "os:29", "os:5", "os:11", "os:28"][(k + scn.salt / 8) % 10].to_string() };
+        // the label that has to come back: the kind and, for OS errors, the raw code
+        let label = crate::seam::fault_label(&fault);
+        let kind = label.as_str();
         let mut c = cfg0.clone();
-        c.faults = vec![Fault { call: k, kind: kind.to_string(), payload: ["", "", "msg", "nested:Interrupted", "nested:BrokenPipe", "seqio"][(k + scn.salt / 8) % 6].to_string() }];
+        c.faults = vec![fault];
         let log = drive(base, &c, &targets);
         hash = vcore::mix(hash, log.log_hash);
         st.count("step.fault_points_enumerated", 1);
@@ -773,6 +776,33 @@ pub fn gen_c09(rng: &Rng, tier: Tier) -> C09Scn {
         cfg.policy = if rng.chance(1, 2) { PolicySpec::Std } else { PolicySpec::DoubleLimit(600_000) };
         ops = ops_next_to_end(4);
         profile = "beyond_64k".into();
+    }
+    if rng.chance(1, 600) {
+        // several KiB of small records that all fit, read by next() with record-set reads (and a
+        // seek now and then) thrown in at random places - in particular when only the incomplete
+        // tail of the buffer is left: nothing here ever needs a larger buffer
+        // (kept small: every step re-iterates the filled record set to see that it did not change)
+        let cap = rng.range(4096, 6000);
+        input = many_small_records(rng, fmt, cap + rng.range(cap / 4, cap));
+        let n_rec = input.iter().filter(|b| **b == if fmt == Fmt::Fasta { b'>' } else { b'@' }).count();
+        let p = rng.range(4, 40);
+        ops = (0..n_rec + 2)
+            .map(|i| {
+                if rng.chance(1, p as u64) {
+                    Op::ReadSet(0)
+                } else if rng.chance(1, 400) {
+                    Op::SeekRec(rng.below(i as u64 + 1) as usize)
+                } else {
+                    Op::Next
+                }
+            })
+            .collect();
+        cfg.cap = cap;
+        cfg.cuts = vec![];
+        cfg.intr_burst = None;
+        cfg.script = if rng.chance(1, 2) { vec![] } else { vec![rng.range(500, 9000) as u32] };
+        cfg.policy = if rng.chance(1, 2) { PolicySpec::Std } else { PolicySpec::Refuse };
+        profile = "kib_all_fit".into();
     }
     if rng.chance(1, 400) {
         // opened by path with an explicit small capacity: the policy must still be the only way to a
